@@ -227,6 +227,16 @@ def getattribute_function(fdef):
                               '(execPrefix : String) (name : String) : CVal'))
 
 
+def _is_known_env_use(tree, node):
+    """is this `os.environ` node the receiver of a .get/.pop/.setdefault call or of a subscript (reported by those)?"""
+    for n in ast.walk(tree):
+        if isinstance(n, ast.Attribute) and n.value is node and n.attr in ('get', 'pop', 'setdefault'):
+            return True
+        if isinstance(n, ast.Subscript) and n.value is node:
+            return True
+    return False
+
+
 def module_function(fdef):
     if fdef.args.args or fdef.args.kwonlyargs or fdef.args.vararg or fdef.args.kwarg:
         raise Untranslatable(f'deep.config.{fdef.name} takes arguments')
@@ -356,10 +366,63 @@ def moduleValue (env : Env) (execPrefix : String) (name : String) : Option CVal 
     if not same_shape(find_def(sa, 'SnapshotActionContext.is_app_frame'),
                       'return self.trigger_context.config.is_app_frame(filename)'):
         raise Untranslatable('SnapshotActionContext.is_app_frame no longer just asks the trigger\'s configuration')
-    parts.append('/-- `SnapshotActionContext.is_app_frame(filename)` is `self.trigger_context.config.is_app_frame(filename)`:\n'
-                 '    the `appFrame` argument of `parseShortName` in production is the configuration\'s `isAppFrame`\n'
-                 '    (read from the source on every run; a cache or a second rule set in between is Untranslatable) -/\n'
-                 'def contextAsksConfig : Bool := true\n')
+    # the route as it is WRITTEN in the source now (a real value: the theorem compares it with the expected chain)
+    route = []
+    psn_src = find_def(load(FC), 'FrameCollector.parse_short_name')
+    for n in ast.walk(psn_src):
+        if isinstance(n, ast.Call) and isinstance(n.func, ast.Attribute) and n.func.attr == 'is_app_frame':
+            route.append('FrameCollector.parse_short_name: ' + ast.unparse(n))
+    fci = find_def(load(FC), 'FrameCollector.__init__')
+    route += ['FrameCollector.__init__: ' + ast.unparse(x) for x in strip_doc(fci.body)
+              if isinstance(x, ast.Assign) and 'source' in ast.unparse(x)]
+    for fn in ast.walk(sa):
+        if isinstance(fn, ast.FunctionDef):
+            for n in ast.walk(fn):
+                if isinstance(n, ast.Call) and ast.unparse(n.func) == 'FrameCollector':
+                    route.append(f'SnapshotActionContext.{fn.name}: ' + ast.unparse(n))
+    route += ['SnapshotActionContext.is_app_frame: ' + ast.unparse(x)
+              for x in strip_doc(find_def(sa, 'SnapshotActionContext.is_app_frame').body)]
+    tc = load('src/deep/processor/context/trigger_context.py')
+    route += ['TriggerContext.config: ' + ast.unparse(x) for x in strip_doc(find_def(tc, 'TriggerContext.config').body)]
+    tci = find_def(tc, 'TriggerContext.__init__')
+    route += ['TriggerContext.__init__: ' + ast.unparse(x) for x in strip_doc(tci.body)
+              if isinstance(x, ast.Assign) and ast.unparse(x.targets[0]) == 'self.__config']
+    parts.append('/-- the route a collected frame takes to the include/exclude/root rules, AS WRITTEN in the source now (every\n'
+                 '    call of `is_app_frame` in parse_short_name, what FrameCollector keeps as its source, every construction\n'
+                 '    of a FrameCollector in snapshot_action.py, the body of SnapshotActionContext.is_app_frame, the\n'
+                 '    TriggerContext.config getter and what __init__ stores there) -/\n'
+                 'def frameRoute : List String :=\n  [' + ',\n   '.join(lean_str(r) for r in route) + ']\n')
+
+    # ---- every read of the process environment under src/deep (a consumer that reads DEEP_<KEY> itself bypasses the chain)
+    reads = []
+    root = os.path.join(pylean.REPO, 'src/deep')
+    for dp, dn, fns in sorted(os.walk(root)):
+        dn.sort()
+        for fn in sorted(fns):
+            if not fn.endswith('.py'):
+                continue
+            rel = os.path.relpath(os.path.join(dp, fn), os.path.join(pylean.REPO, 'src'))
+            try:
+                tree = ast.parse(open(os.path.join(dp, fn), encoding='utf-8').read())
+            except SyntaxError as e:
+                raise Untranslatable(f'{rel}: {e}')
+            for n in ast.walk(tree):
+                t = None
+                if isinstance(n, ast.Call) and ast.unparse(n.func) in ('os.getenv', 'getenv', 'os.environ.get', 'environ.get',
+                                                                        'os.environ.pop', 'os.environ.setdefault'):
+                    t = ast.unparse(n.args[0]) if n.args else ''
+                elif isinstance(n, ast.Subscript) and ast.unparse(n.value) in ('os.environ', 'environ'):
+                    t = ast.unparse(n.slice)
+                elif isinstance(n, (ast.Attribute, ast.Name)) and ast.unparse(n) in ('os.environ', 'os.environb') \
+                        and not _is_known_env_use(tree, n):
+                    t = '<whole environment>'
+                if t is not None:
+                    reads.append((rel, t))
+    reads = sorted(set(reads))
+    parts.append('/-- every place under src/deep that reads the process environment: (file, what is read) — found by scanning ALL\n'
+                 '    files on every run (os.getenv / os.environ.get / os.environ[...] / any other use of os.environ) -/\n'
+                 'def envReadSites : List (String × String) :=\n  [' + ',\n   '.join(
+                     f'({lean_str(a)}, {lean_str(b)})' for a, b in reads) + ']\n')
 
     # ---- deep.start
     st = find_def(load(DEEP), 'start')
